@@ -281,17 +281,51 @@ example : (roundtrip {
 /-- **Enum declarations.** The canonical declaration the reader returns for ANY declared enum:
 the effective prefix (declared, or the default), and as options `UNSPECIFIED` = 0 followed by the
 declared options in order, numbered from 1, as short names — whether they were written with or
-without the prefix, and whether or not `UNSPECIFIED` was declared explicitly first. -/
+without the prefix, and whether or not `UNSPECIFIED` was declared explicitly first; the enum's
+description; and one description per option: the declared one, where the zero option has one only
+if it was declared explicitly. -/
 theorem C04_enum_decl_normal_form (d : EnumDecl) :
     normDecl d = { name := d.name, declPrefix := some d.pfx, defaultPrefix := d.pfx,
-                   options := "UNSPECIFIED" :: d.rest.map (normEnumName d) } := by
+                   options := "UNSPECIFIED" :: d.rest.map (normEnumName d),
+                   description := d.description,
+                   descs := if d.isExplicit then d.optDescs else "" :: d.optDescs } := by
   have hnum : ∀ (k : Nat) (l : List String),
       (numberFrom d.pfx k l).map (fun v => trimPrefix d.pfx v.1) = l.map (normEnumName d) := by
     intro k l
     induction l generalizing k with
     | nil => rfl
     | cons o r ih => simp [numberFrom, normEnumName, ih]
-  simp only [normDecl, values_general d, List.map_cons, trimPrefix_append, hnum]
+  simp only [normDecl, values_general d, List.map_cons, trimPrefix_append, hnum, EnumDecl.valueDescs]
+
+/-- **Option descriptions survive the trip through the comments.** The writer files each option's
+description as a leading comment under the value's *number* (`comments`), the reader looks comments
+up by the value's *index* in the descriptor (`commentAt … i`): for every declaration — implicit
+zero, explicit zero with or without description, descriptions on some or all options — every
+compiled value gets back exactly the description declared for it. -/
+theorem C04_enum_option_descriptions (d : EnumDecl) :
+    (List.range d.values.length).map (commentAt d.comments) = d.valueDescs ∧
+    d.valueDescs.length = d.values.length := by
+  refine ⟨descs_read d, ?_⟩
+  have hl := rest_length d
+  have ho := optDescs_length d
+  rw [values_general d]
+  simp only [List.length_cons, numberFrom_length, EnumDecl.valueDescs]
+  cases he : d.isExplicit <;> simp [he] at hl ⊢ <;> omega
+
+/-- the witness of seeded change C04-m6: explicit UNSPECIFIED with a description. Filing the
+comment under the number (0) is what makes it come back on the zero option. -/
+example :
+    let d : EnumDecl := { name := "En", defaultPrefix := "EN_", options := ["UNSPECIFIED", "A", "B"],
+                          description := "the enum", descs := ["zero", "", "bee"] }
+    d.comments = [(0, "zero"), (2, "bee")] ∧ (normDecl d).descs = ["zero", "", "bee"] ∧
+    (normDecl d).description = "the enum" := by
+  decide
+
+/-- … and with the implicit zero option the declared descriptions shift by one -/
+example :
+    let d : EnumDecl := { name := "En", defaultPrefix := "EN_", options := ["A", "B"], descs := ["ay", "bee"] }
+    d.comments = [(1, "ay"), (2, "bee")] ∧ (normDecl d).descs = ["", "ay", "bee"] := by
+  decide
 
 /-- enum declarations of every spelling are inside `WFField`: declared prefix, an option written
 with the prefix, explicit leading UNSPECIFIED; rule names and default filters in both spellings -/
@@ -305,7 +339,8 @@ example : WFField {
 
 example : normDecl { name := "En", declPrefix := some "XX_", defaultPrefix := "EN_",
                      options := ["XX_UNSPECIFIED", "A", "XX_B", "C"] }
-    = { name := "En", declPrefix := some "XX_", defaultPrefix := "XX_", options := ["UNSPECIFIED", "A", "B", "C"] } := by
+    = { name := "En", declPrefix := some "XX_", defaultPrefix := "XX_", options := ["UNSPECIFIED", "A", "B", "C"],
+        descs := ["", "", "", ""] } := by
   decide
 
 /-- the normal form is not the identity: e.g. `exclusiveMaximum = false` disappears -/
